@@ -92,7 +92,11 @@ def lang_scenarios(reps, env):
              ('pack rec', ['pack', '-t', 'rec', '-o', 'prodos', '-f', 'R'], records_json(12)),
              ('pack rec straddling prodos', ['pack', '-t', 'rec', '-o', 'prodos', '-f', 'R'], records_json(14, 100)),
              ('pack rec straddling dos', ['pack', '-t', 'rec', '-o', 'dos33', '-f', 'R'], records_json(14, 100)),
-             ('pack rec straddling dos 127', ['pack', '-t', 'rec', '-o', 'dos33', '-f', 'R'], records_json(20, 127)), ('pack txt', ['pack', '-t', 'txt', '-o', 'dos33', '-f', 'T'], b'A\nB\n')]
+             ('pack rec straddling dos 127', ['pack', '-t', 'rec', '-o', 'dos33', '-f', 'R'], records_json(20, 127)),
+             # records as long as a chunk and longer: each runs on into the chunk where the next one starts
+             ('pack rec long dos 300', ['pack', '-t', 'rec', '-o', 'dos33', '-f', 'R'], records_json(12, 300)), ('pack rec long dos 256', ['pack', '-t', 'rec', '-o', 'dos33', '-f', 'R'], records_json(12, 256)),
+             ('pack rec long prodos 600', ['pack', '-t', 'rec', '-o', 'prodos', '-f', 'R'], records_json(12, 600)), ('pack rec long prodos 512', ['pack', '-t', 'rec', '-o', 'prodos', '-f', 'R'], records_json(12, 512)),
+             ('pack rec long prodos 1100', ['pack', '-t', 'rec', '-o', 'prodos', '-f', 'R'], records_json(9, 1100)), ('pack txt', ['pack', '-t', 'txt', '-o', 'dos33', '-f', 'T'], b'A\nB\n')]
     for name, argv, stdin in cases:
         outs = set()
         for r in range(reps):
